@@ -120,6 +120,8 @@ def recv_path(v) -> str:
             return b
         if b.startswith("new "):
             return a
+        if a and b and root_attr(a) == root_attr(b) and root_attr(a):
+            return min(a, b, key=len)      # alternatives derived from the same attribute (e.g. value.value | value)
         return f"({a}|{b})"
     return show(v)
 
